@@ -101,7 +101,7 @@ impl Counter {
     /// Decrement counter by 1 and return true if crossing limit.
     #[inline(always)]
     pub(crate) fn dec(&self) -> bool {
-        self.counter.fetch_sub(1, Ordering::Relaxed) == self.limit
+        self.counter.fetch_sub(1, Ordering::Relaxed) - 1 == self.limit
     }
 
     pub(crate) fn total(&self) -> usize {
